@@ -10,6 +10,7 @@ import ast
 from .model import norm, NotConst
 
 UNKNOWN = None
+_PURE = {"range": range, "min": min, "max": max, "abs": abs, "int": int, "bool": bool, "len": len, "divmod": divmod}
 
 
 class Evaluator:
@@ -37,9 +38,29 @@ class Evaluator:
                 raise NotConst(str(e))
         if isinstance(node, (ast.Tuple, ast.List, ast.Set)):
             return tuple(self.value(e, env) for e in node.elts)
-        if isinstance(node, ast.Call) and isinstance(node.func, ast.Name) and node.func.id == "range":
+        if isinstance(node, ast.Call) and isinstance(node.func, ast.Name) and node.func.id in _PURE and not node.keywords:
             args = [self.value(a, env) for a in node.args]
-            return range(*args)
+            try:
+                return _PURE[node.func.id](*args)
+            except Exception as e:
+                raise NotConst(str(e))
+        if isinstance(node, (ast.Compare, ast.BoolOp)) or (isinstance(node, ast.UnaryOp) and isinstance(node.op, ast.Not)):
+            if isinstance(node, ast.BoolOp):
+                # python value semantics of and/or
+                vals = [self.value(v, env) for v in node.values]
+                r = vals[0]
+                for v in vals[1:]:
+                    if isinstance(node.op, ast.And):
+                        r = r and v
+                    else:
+                        r = r or v
+                return r
+            v = self.eval3(node, env)
+            if v is UNKNOWN:
+                raise NotConst("unknown truth value of %s" % norm(node))
+            return v
+        if isinstance(node, ast.IfExp):
+            return self.value(node.body, env) if self.value(node.test, env) else self.value(node.orelse, env)
         return self.prog.const(self.module, node, self.cls)
 
     def eval3(self, test, env):
@@ -47,6 +68,13 @@ class Evaluator:
         k = norm(test)
         if k in env and isinstance(env[k], bool):
             return env[k]
+        if isinstance(test, ast.Call) and isinstance(test.func, ast.Name) and test.func.id == "isinstance" and len(test.args) == 2:
+            kk = "isinstance:" + norm(test.args[0])
+            if kk in env:
+                t = test.args[1]
+                names = [norm(e) for e in (t.elts if isinstance(t, ast.Tuple) else [t])]
+                return env[kk] in names
+            return UNKNOWN
         if isinstance(test, ast.BoolOp):
             vals = [self.eval3(v, env) for v in test.values]
             if isinstance(test.op, ast.And):
@@ -214,3 +242,8 @@ def eq_pairs(atoms):
             if (isinstance(a.ops[0], ast.Eq) and pol) or (isinstance(a.ops[0], ast.NotEq) and not pol):
                 out.add(frozenset((norm(a.left), norm(a.comparators[0]))))
     return out
+
+
+def atom_texts(facts):
+    """[(normalised text, polarity)] of the flattened atoms of the facts"""
+    return [(norm(a), pol) for a, pol in atoms_of_facts(facts)]
